@@ -439,6 +439,9 @@ def run(ctx):
     from .c13 import rule_meta_charset
     rule_meta_charset(ctx, mir, rid="R08.11")
 
+    # ------------------------------------------------------------------ R08.12 (generic, scoped to this property's anchors)
+    sm.rule_named_plumbing(ctx, mir, "C08", "R08.12", floor=46)
+
     ctx.not_decided += ["differences between lol-html's tokenizer and other HTML parsers beyond C03", "decoding of the output under another encoding than the document's (cross-encoding confusion)"]
     return ("Writer/reader agreement decided as language inclusions between the serialiser's reject/escape sets (read from the expanded source) and the "
             "tokenizer automaton extracted from the same tree: exhaustive over all 256 bytes for names, values and body text, and a DFA inclusion "
